@@ -5,9 +5,33 @@
 EXTENDS Core, RebuildRef, TLC, Json, IOUtils
 Recs == ndJsonDeserialize(IOEnv.TRACE_FILE)
 VARIABLE i
+\* the implementation-shaped matching model at the record's piece length (clause M13.impl)
+\* (a module constant cannot be instantiated with a value read from the trace, hence one instance per
+\* piece length the rebuild scenarios use)
+FM16 == INSTANCE FindMatches WITH Variant <- "fixed", AllowPartialFirst <- TRUE, MaxFiles <- 0, MaxSize <- 0, P <- 16384,
+                                  Classes <- {}, sizes <- 0, cands <- 0, dest <- 0, dsize <- 0, copied <- 0,
+                                  piece <- 0, pc <- 0
+FM32 == INSTANCE FindMatches WITH Variant <- "fixed", AllowPartialFirst <- TRUE, MaxFiles <- 0, MaxSize <- 0, P <- 32768,
+                                  Classes <- {}, sizes <- 0, cands <- 0, dest <- 0, dsize <- 0, copied <- 0,
+                                  piece <- 0, pc <- 0
+\* the model works on the files in the order of the v1 stream (r.stream_order maps stream position
+\* to the index in r.files); the prediction is mapped back to r.files order
+ImplAfter(r) ==
+    LET ord == r.stream_order
+        sz == [k \in DOMAIN ord |-> r.files[ord[k]].length]
+        cd == [k \in DOMAIN ord |-> r.files[ord[k]].cands]
+        d == IF r.P = 16384 THEN FM16!MatchAll(sz, cd) ELSE FM32!MatchAll(sz, cd)
+        pos(f) == CHOOSE k \in DOMAIN ord : ord[k] = f
+    IN [f \in DOMAIN r.files |->
+          LET k == pos(f) IN
+          IF d[k] = 0 THEN "absent"
+          ELSE IF cd[k][d[k]] = "intact" THEN "intact" ELSE "cand:" \o cd[k][d[k]]]
 
 Clause(r, c) ==
-  CASE c = "C13.complete" -> r.status = "ok" /\ Complete(r.files)
+  CASE c = "M13.impl" -> r.status # "ok" \/ r.version # 1 \/ r.P \notin {16384, 32768} \/ r.ntorrents # 1 \/ r.runs # 1
+                         \/ (\E k \in DOMAIN r.files : r.files[k].dest_pre # "absent")
+                         \/ [k \in DOMAIN r.files |-> r.files[k].after] = ImplAfter(r)
+    [] c = "C13.complete" -> r.status = "ok" /\ Complete(r.files)
     [] c = "C13.count" -> r.status = "ok" /\ r.count >= 0 /\ r.count <= r.present_after
     [] c = "C14.sources" -> r.sources_unchanged /\ r.metas_unchanged
     [] c = "C14.fulllen" -> FullLengthKept(r.files)
